@@ -1,6 +1,7 @@
 package main
 
 import (
+	"math"
 	"encoding/json"
 	"fmt"
 	"math/rand"
@@ -256,12 +257,19 @@ func libFrt(seed int64, count int) {
 	r := rand.New(rand.NewSource(seed))
 	for i := 0; i < count; i++ {
 		n := r.Int63n(1<<40) - (1 << 39)
-		if i < 8 {
-			n = []int64{0, 1, -1, 127, -128, 255, 65535, 1 << 31}[i]
+		if i%3 == 1 {
+			n = int64(r.Uint64()) // the whole 64-bit range
+		}
+		if i < 14 {
+			n = []int64{0, 1, -1, 127, -128, 255, 65535, 1 << 31, math.MaxInt64, math.MinInt64, math.MaxInt32, math.MinInt32, math.MaxInt64 - 1, -(1 << 62)}[i]
 		}
 		u := uint64(n)
-		if n < 0 {
+		if n < 0 && i%2 == 0 {
 			u = uint64(-n)
+		}
+		if i >= 14 && i < 22 {
+			// unsigned boundaries: values above MaxInt64 are where a signed conversion shows
+			u = []uint64{math.MaxUint64, 1 << 63, 1<<63 - 1, 1<<63 + 1, math.MaxUint32, math.MaxUint32 + 1, math.MaxUint64 - 1, 1 << 62}[i-14]
 		}
 		tosOne("Int", int(n), strconv.FormatInt(n, 10))
 		tosOne("Int8", int8(n), strconv.FormatInt(int64(int8(n)), 10))
